@@ -20,6 +20,10 @@ func InitGenesis(ctx sdk.Context, k keeper.Keeper, genState types.GenesisState, 
 	// Set all the vestingAccount
 	for _, elem := range genState.VestingAccountTraces {
 		k.Logger(ctx).Debug("set vesting account", "vestingAccount", elem)
+		// traces and pools are looked up under the canonical spelling of an address; a genesis file may spell it differently
+		if address, err := sdk.AccAddressFromBech32(elem.Address); err == nil {
+			elem.Address = address.String()
+		}
 		k.SetVestingAccountTrace(ctx, elem)
 	}
 
@@ -57,6 +61,9 @@ func InitGenesis(ctx sdk.Context, k keeper.Keeper, genState types.GenesisState, 
 
 	for _, av := range allAccountVestingPools {
 		k.Logger(ctx).Debug("set account vesting pools", "accountVestingPool", av)
+		if owner, err := sdk.AccAddressFromBech32(av.Owner); err == nil {
+			av.Owner = owner.String()
+		}
 		k.SetAccountVestingPools(ctx, *av)
 	}
 	ak.GetModuleAccount(ctx, types.ModuleName)
